@@ -213,13 +213,14 @@ theorem step5_single_none_iff (d : Nat) (cs : List (List Cand)) (todo : List Nat
 (include list honoured, or list all-LOOSE).  Together with `isdisjoint_test_iff_linkDisjoint` (the test means
 link-disjointness) and `disjointOracle_iff` this is: for a single pair a disjoint solution is found whenever one
 exists among the candidates of at most 80 hops. -/
-theorem pair_complete (inp : SelInput) (d r0 r1 : Nat) (reqs : List Nat) :
+theorem pair_complete (inp : SelInput) (d r0 r1 : Nat) (reqs : List Nat) (hne : r0 ≠ r1)
+    (hf : PairFacts inp r0 r1) :
     selectDisjoint inp [(d, [r0, r1])] reqs = none ↔
       ¬ ∃ i, i < inp.ncand r0 ∧ ∃ j, j < inp.ncand r1 ∧ inp.dis (r1, j) (r0, i) = true ∧
           accCand inp (r0, i) = true ∧ accCand inp (r1, j) = true := by
   unfold selectDisjoint
   simp only [List.map_cons, List.map_nil]
-  rw [step3_single]
+  rw [step3_single inp d [r0, r1] reqs _ (fun r _ hr => noOrphan_pair inp r0 r1 hne hf r hr)]
   simp only [List.map_cons, List.map_nil]
   rw [step5_single_none_iff, step4_nil_iff]
   constructor
@@ -239,11 +240,12 @@ theorem pair_complete (inp : SelInput) (d r0 r1 : Nat) (reqs : List Nat) :
     fixes a path of A for which {A,C} has no combination, while another path of A serves both (step 5 never
     backtracks).  What holds for any vector structure is the error direction of a single vector: -/
 theorem group_complete_partial (inp : SelInput) (d : Nat) (dl reqs : List Nat)
+    (hno : ∀ r ∈ reqs, r ∈ dl → ∀ c ∈ candsOf inp r, NoOrphan inp.vid c (step2 inp dl))
     (h : ∀ sol ∈ step2 inp dl, sol.all (accCand inp) = false) :
     selectDisjoint inp [(d, dl)] reqs = none := by
   unfold selectDisjoint
   simp only [List.map_cons, List.map_nil]
-  rw [step3_single]
+  rw [step3_single inp d dl reqs _ hno]
   simp only [List.map_cons, List.map_nil]
   rw [step5_single_none_iff, step4_nil_iff]
   exact h
@@ -267,8 +269,25 @@ def demoSel : SelInput where
   okInc := fun _ => true
   hasStrict := fun _ => false
   hasInc := fun _ => false
+  vid := fun c => 2 * c.1 + c.2
 
 example : selectDisjoint demoSel [(7, [0, 1])] [0, 1] = some [(0, 1), (1, 0)] := by decide
+example : PairFacts demoSel 0 1 := by
+  refine ⟨?_, ?_, ?_, ?_, ?_⟩
+  · intro r i j h; simp only [demoSel] at h; omega
+  · intro i j h; simp only [demoSel] at h ⊢; simp at h; omega
+  · intro i j i' j' h1 h2
+    simp only [demoSel] at h1 h2
+    have hi : i = 2 + j' := by omega
+    have hi' : i' = 2 + j := by omega
+    subst hi; subst hi'
+    have e : ∀ k : Nat, (((0:Nat), 2 + k) == ((0:Nat), (1:Nat))) = false := by
+      intro k; rw [beq_eq_false_iff_ne]; intro h; injection h with h1 h2; omega
+    have e' : ∀ k : Nat, (((1:Nat), k) == ((0:Nat), (1:Nat))) = false := by
+      intro k; rw [beq_eq_false_iff_ne]; intro h; injection h with h1 h2; omega
+    simp only [demoSel, e, e', Bool.and_false, Bool.false_and, Bool.or_false]
+  · intro i j hi hj h; simp only [demoSel] at h hi hj; omega
+  · intro i j hi hj h; simp only [demoSel] at h hi hj; omega
 example : selectDisjoint { demoSel with dis := fun _ _ => false } [(7, [0, 1])] [0, 1] = none := by decide
 example : sitesOf [oAB, oBC] = [0, 1, 2] ∧ linksC [oAB, oBC] = [(0, 1), (1, 2)] := by decide
 
